@@ -84,6 +84,9 @@ func name(i, n int) string {
 		return strings.Repeat("x-", i-1) + "my-lib.p"
 	}
 	if i >= n {
+		if n == 1 {
+			return "" // the empty name is a name no script has
+		}
 		return "missing.p"
 	}
 	return fmt.Sprintf("s%d.p", i)
@@ -671,7 +674,7 @@ func TestIdenticalTexts(t *testing.T) {
 		src    string
 		reject bool
 	}{
-		{"x = = 1", true}, {"y = 1\nz = \"unterminated", true}, {"a b\nc = 1 $ 2", true}, {"y = 2\nnosuch()", true}, {"x = len(len(nosuch()))", true}, {"use(\"missing.p\")", true},
+		{"x = = 1", true}, {"y = 1\nz = \"unterminated", true}, {"a b\nc = 1 $ 2", true}, {"y = 2\nnosuch()", true}, {"x = len(len(nosuch()))", true}, {"use(\"missing.p\")", true}, {"use(\"\")", true}, {"use('')", true}, {"x = 1\nuse(\"\"\"\"\"\")", true}, {"use(\" \")", true},
 		{"x = 1\nbreak", true}, {"add_key(k, 1)", false}, {"use(\"ok.p\")", false}, {"x = 1\nuse(\"bad.p\")", true},
 	}
 	names := [][]string{{"a.p", "b.p"}, {"logging/nginx.p", "metric/nginx.p", "nginx.p"}, {"one.p", "two.p", "three.p", "four.p"}}
@@ -791,12 +794,72 @@ func TestFromFiles(t *testing.T) {
 	evid.Exhaustive("sets with blank lines, indentation and blank-only scripts read back from a directory", n)
 }
 
+// TestEarlierLoadsKeepTheirBindings: a host keeps the scripts of an earlier load while it loads newer versions of the
+// set (callers byte-identical, a callee edited - or broken, so that the newer load is rejected): the scripts of every
+// load stay bound to the scripts of THEIR load and run them.
+func TestEarlierLoadsKeepTheirBindings(t *testing.T) {
+	callers := []map[string]string{
+		{"main.p": "use(\"lib.p\")\nadd_key(done, 1)"},
+		{"main.p": "use(\"mid.p\")\nadd_key(done, 1)", "mid.p": "use(\"lib.p\")\nuse(\"lib.p\")"},
+		{"main.p": "if true {\n  use(\"lib.p\")\n}\nuse(\"mid.p\")", "mid.p": "for i in [1] { use(\"lib.p\") }"},
+	}
+	libs := []string{"add_key(v, 1)", "add_key(v, 2)", "x = = 1", "add_key(v, 4)\nnosuch()", "add_key(v, 5)", "use(\"main.p\")", "add_key(v, 1)"}
+	n := 0
+	for ci, caller := range callers {
+		type loaded struct {
+			ok   map[string]*plrt.Script
+			want string // value of v the callee of this load writes
+			set  map[string]string
+		}
+		var kept []loaded
+		for li, lib := range libs {
+			set := map[string]string{"lib.p": lib}
+			for k, v := range caller {
+				set[k] = v
+			}
+			ok, errs, crash := impl.LoadV1(set, call, check)
+			if crash != nil {
+				rk.Fail(t, "earlier-loads", set, "load %d panicked: %s", li, crash.Value)
+			}
+			if len(errs) == 0 {
+				kept = append(kept, loaded{ok, lib[len("add_key(v, ") : len("add_key(v, ")+1], set})
+			}
+			// every load kept so far: still bound to its own scripts, still running its own callee
+			for ki, l := range kept {
+				for name, sc := range l.ok {
+					for cj, ce := range sc.CallRef {
+						b, _ := ce.PrivateData.(*plrt.Script)
+						if b == nil || b != l.ok[b.Name] {
+							rk.Fail(t, "earlier-loads", map[string]any{"kept_load": l.set, "later_load": set}, "after load %d (lib.p = %q): use call %d of %s from kept load %d is no longer bound to the %s of its own load", li, lib, cj, name, ki, func() string {
+								if b == nil {
+									return "script"
+								}
+								return b.Name
+							}())
+						}
+					}
+				}
+				pt := impl.NewPoint("m", nil, map[string]any{})
+				if err, crash := impl.RunV1(l.ok["main.p"], pt, nil); err != nil || crash != nil {
+					rk.Fail(t, "earlier-loads", map[string]any{"kept_load": l.set, "later_load": set}, "after load %d: main.p of kept load %d fails: %v %v", li, ki, err, crash)
+				}
+				if got := fmt.Sprint(pt.Fields["v"]); got != l.want {
+					rk.Fail(t, "earlier-loads", map[string]any{"kept_load": l.set, "later_load": set}, "after load %d (lib.p = %q): main.p of kept load %d (lib.p = %q) leaves v = %s, its own callee writes %s", li, lib, ki, l.set["lib.p"], got, l.want)
+				}
+				n++
+			}
+		}
+		evid.Case(fmt.Sprintf("earlier-loads/%d", ci), true, "earlier-loads-keep-their-bindings")
+	}
+	evid.Exhaustive("caller set x sequence of loads with an edited / broken callee: every kept load re-examined after every load", n)
+}
+
 // TestRelinkWithFailedCallee: the error table of an earlier load - its errors already rendered and encoded, as a host
 // that logs them does - is handed to the exported linker together with a newly checked script that uses one of the
 // failed scripts: the new script is rejected with the callee's error followed by its own call site, in the position
 // chain and in the rendered text alike, and the stored errors stay what they were.
 func TestRelinkWithFailedCallee(t *testing.T) {
-	bads := []string{"x = = 1", "y = 2\nnosuch()", "x = len(len(nosuch()))", "if true {\n  z = [1, {\"k\": len(len(len(nosuch2())))}]\n}", "use(\"missing.p\")", "a b\nc = 1 $ 2"}
+	bads := []string{"x = = 1", "y = 2\nnosuch()", "x = len(len(nosuch()))", "if true {\n  z = [1, {\"k\": len(len(len(nosuch2())))}]\n}", "use(\"missing.p\")", "a b\nc = 1 $ 2", "use(\"\")", "if true { use('') }"}
 	mains := []string{"use(\"lib.p\")", "x = 1\n  use(\"lib.p\")", "if true {\n  use(\"lib.p\")\n}\nuse(\"ok.p\")", "use(\"ok.p\")\nfor i in [1] { use(\"lib.p\") }"}
 	render := func(pe *errchain.PlError) string {
 		if pe == nil || len(pe.PosChain) == 0 {
@@ -1070,7 +1133,7 @@ func parseConfig(r replay) (config, bool) {
 				rest = rest[j+5:]
 				e := strings.Index(rest, "\"")
 				tn := rest[:e]
-				if tn == "missing.p" {
+				if tn == "missing.p" || tn == "" {
 					s.Calls = append(s.Calls, n)
 				} else {
 					var ti int
